@@ -64,6 +64,7 @@ ThCovDiag == stage = 2 => CovDiagNonNeg(out)
 ThCorr == stage = 2 => Corr2Le1(out)
 ThBand == stage = 2 => BandNonNeg(out)
 ThTable == TQ2Consistent /\ TQMonotone
+ThWScale == stage = 2 => WeightScaleLaw(inst.fam, inst.x, inst.w, inst.a, inst.c, inst.r0, 2)
 ThScale == stage = 2 => \A t \in {2, 3} : ScaleLaw(inst.fam, inst.x, inst.w, inst.a, inst.c, inst.r0, t)
 \* the stationary point really is the least squares optimum at alpha: c equals the oracle's coefficients
 ThCoeffIsC == stage = 2 =>
